@@ -728,3 +728,259 @@ Example C11_gen_example :
 Proof. vm_compute. first [exact I | reflexivity]. Qed.
 
 End GenAgreeMeasures_C11.
+
+(* ==== GenAgree (subtotal strategies): what matrix/subtotals.py and stripe/insertion.py SAY NOW ==== *)
+(* Appended by work/translator3 (statements generated from the lemmas of Proofs/GenAgreeSubtotalsTerms.v by
+   work/translator3/gen_lemmas.py).  Gen/SubtotalsSrc.v / Gen/StripeInsertionSrc.v are rewritten from the
+   source on every check; [seval] (Base/SubtotalExp.v) is the meaning of a translated member;
+   [None] = the translator could not read the member (tied by the correspondence only). *)
+From Coq Require String.
+From CC Require Base.SubtotalExp Base.MeasureExp Model.Subtotals Model.Proportions Model.Variance
+     Gen.SubtotalsSrc Gen.StripeInsertionSrc Proofs.GenAgreeMeasTac Proofs.GenAgreeSubTac Proofs.GenAgreeSubtotalsTerms.
+Section GenAgreeSubtotals_C11.   (* scopes and imports below end with the section *)
+Import Coq.Strings.String CC.Base.SubtotalExp CC.Base.MeasureExp CC.Model.Subtotals CC.Model.Proportions
+       CC.Model.Variance CC.Gen.SubtotalsSrc CC.Gen.StripeInsertionSrc CC.Proofs.GenAgreeMeasTac
+       CC.Proofs.GenAgreeSubTac CC.Proofs.GenAgreeSubtotalsTerms.
+Import Coq.Lists.List.ListNotations CC.Base.XQ CC.Base.ListX.
+Local Close Scope Q_scope.
+Local Open Scope string_scope.
+Local Open Scope nat_scope.
+
+(* matrix PositiveTermSubtotals = [pos_blocks] (Model/Variance.v) = [strat_std .. 1 ..] *)
+Theorem C11_gen_PositiveTermSubtotals :
+  (match src_PositiveTermSubtotals__subtotal_column with
+  | Some e => forall base nr nc rsubs csubs s,
+      sub_in nc s ->
+      sagrees_vec (seval (senv_sum base nr nc false false rsubs csubs s s) e) nr (fun i => sum_cols base i (s_add s))
+  | None => True
+  end) /\
+  (match src_PositiveTermSubtotals__subtotal_row with
+  | Some e => forall base nr nc rsubs csubs s,
+      sub_in nr s ->
+      sagrees_vec (seval (senv_sum base nr nc false false rsubs csubs s s) e) nc (pos_row base s)
+  | None => True
+  end) /\
+  (match src_PositiveTermSubtotals__intersection with
+  | Some e => forall base nr nc rsubs csubs rs cs,
+      sub_in nr rs ->
+      sub_in nc cs ->
+      sagrees_scal (seval (senv_sum base nr nc false false rsubs csubs rs cs) e) (if has_subs cs && has_subs rs then NaN else xsum (map (pos_row base rs) (s_add cs)))
+  | None => True
+  end) /\
+  (match src_PositiveTermSubtotals__subtotal_columns with
+  | Some e => forall base nr nc rsubs csubs,
+      subs_in nc csubs ->
+      sagrees_mat (seval (senv_sum base nr nc false false rsubs csubs nosub nosub) e) nr (List.length csubs) (mnth (b_cols (pos_blocks base nr nc rsubs csubs)))
+  | None => True
+  end) /\
+  (match src_PositiveTermSubtotals__subtotal_rows with
+  | Some e => forall base nr nc rsubs csubs,
+      subs_in nr rsubs ->
+      sagrees_mat (seval (senv_sum base nr nc false false rsubs csubs nosub nosub) e) (List.length rsubs) nc (mnth (b_rows (pos_blocks base nr nc rsubs csubs)))
+  | None => True
+  end) /\
+  (match src_PositiveTermSubtotals__intersections with
+  | Some e => forall base nr nc rsubs csubs,
+      subs_in nr rsubs ->
+      subs_in nc csubs ->
+      sagrees_mat (seval (senv_sum base nr nc false false rsubs csubs nosub nosub) e) (List.length rsubs) (List.length csubs) (mnth (b_inter (pos_blocks base nr nc rsubs csubs)))
+  | None => True
+  end) /\
+  (match src_PositiveTermSubtotals__blocks_00 with
+  | Some e => forall base nr nc rsubs csubs,
+      sagrees_mat (seval (senv_sum base nr nc false false rsubs csubs nosub nosub) e) nr nc (mnth (b_base (pos_blocks base nr nc rsubs csubs)))
+  | None => True
+  end) /\
+  (match src_PositiveTermSubtotals__blocks_01 with
+  | Some e => forall base nr nc rsubs csubs,
+      subs_in nc csubs ->
+      sagrees_mat (seval (senv_sum base nr nc false false rsubs csubs nosub nosub) e) nr (List.length csubs) (mnth (b_cols (pos_blocks base nr nc rsubs csubs)))
+  | None => True
+  end) /\
+  (match src_PositiveTermSubtotals__blocks_10 with
+  | Some e => forall base nr nc rsubs csubs,
+      subs_in nr rsubs ->
+      sagrees_mat (seval (senv_sum base nr nc false false rsubs csubs nosub nosub) e) (List.length rsubs) nc (mnth (b_rows (pos_blocks base nr nc rsubs csubs)))
+  | None => True
+  end) /\
+  (match src_PositiveTermSubtotals__blocks_11 with
+  | Some e => forall base nr nc rsubs csubs,
+      subs_in nr rsubs ->
+      subs_in nc csubs ->
+      sagrees_mat (seval (senv_sum base nr nc false false rsubs csubs nosub nosub) e) (List.length rsubs) (List.length csubs) (mnth (b_inter (pos_blocks base nr nc rsubs csubs)))
+  | None => True
+  end) /\
+  (match src_PositiveTermSubtotals_blocks_00 with
+  | Some e => forall cubem nr nc rsubs csubs c a,
+      sagrees_mat (seval (senv_sum (cubem c a) nr nc false false rsubs csubs nosub nosub) e) nr nc (strat_std cubem nr nc rsubs csubs 1 false false c a 0 0)
+  | None => True
+  end) /\
+  (match src_PositiveTermSubtotals_blocks_01 with
+  | Some e => forall cubem nr nc rsubs csubs c a,
+      subs_in nc csubs ->
+      sagrees_mat (seval (senv_sum (cubem c a) nr nc false false rsubs csubs nosub nosub) e) nr (List.length csubs) (strat_std cubem nr nc rsubs csubs 1 false false c a 0 1)
+  | None => True
+  end) /\
+  (match src_PositiveTermSubtotals_blocks_10 with
+  | Some e => forall cubem nr nc rsubs csubs c a,
+      subs_in nr rsubs ->
+      sagrees_mat (seval (senv_sum (cubem c a) nr nc false false rsubs csubs nosub nosub) e) (List.length rsubs) nc (strat_std cubem nr nc rsubs csubs 1 false false c a 1 0)
+  | None => True
+  end) /\
+  (match src_PositiveTermSubtotals_blocks_11 with
+  | Some e => forall cubem nr nc rsubs csubs c a,
+      subs_in nr rsubs ->
+      subs_in nc csubs ->
+      sagrees_mat (seval (senv_sum (cubem c a) nr nc false false rsubs csubs nosub nosub) e) (List.length rsubs) (List.length csubs) (strat_std cubem nr nc rsubs csubs 1 false false c a 1 1)
+  | None => True
+  end).
+Proof. exact (conj gen_PositiveTermSubtotals__subtotal_column (conj gen_PositiveTermSubtotals__subtotal_row (conj gen_PositiveTermSubtotals__intersection (conj gen_PositiveTermSubtotals__subtotal_columns (conj gen_PositiveTermSubtotals__subtotal_rows (conj gen_PositiveTermSubtotals__intersections (conj gen_PositiveTermSubtotals__blocks_00 (conj gen_PositiveTermSubtotals__blocks_01 (conj gen_PositiveTermSubtotals__blocks_10 (conj gen_PositiveTermSubtotals__blocks_11 (conj gen_PositiveTermSubtotals_blocks_00 (conj gen_PositiveTermSubtotals_blocks_01 (conj gen_PositiveTermSubtotals_blocks_10 (gen_PositiveTermSubtotals_blocks_11)))))))))))))). Qed.
+Print Assumptions C11_gen_PositiveTermSubtotals.
+
+(* matrix NegativeTermSubtotals = [neg_blocks] (base block all 0) = [strat_std .. 2 ..] *)
+Theorem C11_gen_NegativeTermSubtotals :
+  (match src_NegativeTermSubtotals__subtotal_column with
+  | Some e => forall base nr nc rsubs csubs s,
+      sub_in nc s ->
+      sagrees_vec (seval (senv_sum base nr nc false false rsubs csubs s s) e) nr (fun i => sum_cols base i (s_sub s))
+  | None => True
+  end) /\
+  (match src_NegativeTermSubtotals__subtotal_row with
+  | Some e => forall base nr nc rsubs csubs s,
+      sub_in nr s ->
+      sagrees_vec (seval (senv_sum base nr nc false false rsubs csubs s s) e) nc (fun j => sum_rows base (s_sub s) j)
+  | None => True
+  end) /\
+  (match src_NegativeTermSubtotals__intersection with
+  | Some e => forall base nr nc rsubs csubs rs cs,
+      sub_in nr rs ->
+      sub_in nc cs ->
+      sagrees_scal (seval (senv_sum base nr nc false false rsubs csubs rs cs) e) (if has_subs cs && has_subs rs then NaN else if has_subs cs then xsum (map (fun c => sum_rows base (s_add rs) c) (s_sub cs)) else if has_subs rs then xsum (map (fun r => sum_cols base r (s_add cs)) (s_sub rs)) else Fin 0)
+  | None => True
+  end) /\
+  (match src_NegativeTermSubtotals__subtotal_columns with
+  | Some e => forall base nr nc rsubs csubs,
+      subs_in nc csubs ->
+      sagrees_mat (seval (senv_sum base nr nc false false rsubs csubs nosub nosub) e) nr (List.length csubs) (mnth (b_cols (neg_blocks base nr nc rsubs csubs)))
+  | None => True
+  end) /\
+  (match src_NegativeTermSubtotals__subtotal_rows with
+  | Some e => forall base nr nc rsubs csubs,
+      subs_in nr rsubs ->
+      sagrees_mat (seval (senv_sum base nr nc false false rsubs csubs nosub nosub) e) (List.length rsubs) nc (mnth (b_rows (neg_blocks base nr nc rsubs csubs)))
+  | None => True
+  end) /\
+  (match src_NegativeTermSubtotals__intersections with
+  | Some e => forall base nr nc rsubs csubs,
+      subs_in nr rsubs ->
+      subs_in nc csubs ->
+      sagrees_mat (seval (senv_sum base nr nc false false rsubs csubs nosub nosub) e) (List.length rsubs) (List.length csubs) (mnth (b_inter (neg_blocks base nr nc rsubs csubs)))
+  | None => True
+  end) /\
+  (match src_NegativeTermSubtotals__blocks_00 with
+  | Some e => forall base nr nc rsubs csubs,
+      sagrees_mat (seval (senv_sum base nr nc false false rsubs csubs nosub nosub) e) nr nc (mnth (b_base (neg_blocks base nr nc rsubs csubs)))
+  | None => True
+  end) /\
+  (match src_NegativeTermSubtotals__blocks_01 with
+  | Some e => forall base nr nc rsubs csubs,
+      subs_in nc csubs ->
+      sagrees_mat (seval (senv_sum base nr nc false false rsubs csubs nosub nosub) e) nr (List.length csubs) (mnth (b_cols (neg_blocks base nr nc rsubs csubs)))
+  | None => True
+  end) /\
+  (match src_NegativeTermSubtotals__blocks_10 with
+  | Some e => forall base nr nc rsubs csubs,
+      subs_in nr rsubs ->
+      sagrees_mat (seval (senv_sum base nr nc false false rsubs csubs nosub nosub) e) (List.length rsubs) nc (mnth (b_rows (neg_blocks base nr nc rsubs csubs)))
+  | None => True
+  end) /\
+  (match src_NegativeTermSubtotals__blocks_11 with
+  | Some e => forall base nr nc rsubs csubs,
+      subs_in nr rsubs ->
+      subs_in nc csubs ->
+      sagrees_mat (seval (senv_sum base nr nc false false rsubs csubs nosub nosub) e) (List.length rsubs) (List.length csubs) (mnth (b_inter (neg_blocks base nr nc rsubs csubs)))
+  | None => True
+  end) /\
+  (match src_NegativeTermSubtotals_blocks_00 with
+  | Some e => forall cubem nr nc rsubs csubs c a,
+      sagrees_mat (seval (senv_sum (cubem c a) nr nc false false rsubs csubs nosub nosub) e) nr nc (strat_std cubem nr nc rsubs csubs 2 false false c a 0 0)
+  | None => True
+  end) /\
+  (match src_NegativeTermSubtotals_blocks_01 with
+  | Some e => forall cubem nr nc rsubs csubs c a,
+      subs_in nc csubs ->
+      sagrees_mat (seval (senv_sum (cubem c a) nr nc false false rsubs csubs nosub nosub) e) nr (List.length csubs) (strat_std cubem nr nc rsubs csubs 2 false false c a 0 1)
+  | None => True
+  end) /\
+  (match src_NegativeTermSubtotals_blocks_10 with
+  | Some e => forall cubem nr nc rsubs csubs c a,
+      subs_in nr rsubs ->
+      sagrees_mat (seval (senv_sum (cubem c a) nr nc false false rsubs csubs nosub nosub) e) (List.length rsubs) nc (strat_std cubem nr nc rsubs csubs 2 false false c a 1 0)
+  | None => True
+  end) /\
+  (match src_NegativeTermSubtotals_blocks_11 with
+  | Some e => forall cubem nr nc rsubs csubs c a,
+      subs_in nr rsubs ->
+      subs_in nc csubs ->
+      sagrees_mat (seval (senv_sum (cubem c a) nr nc false false rsubs csubs nosub nosub) e) (List.length rsubs) (List.length csubs) (strat_std cubem nr nc rsubs csubs 2 false false c a 1 1)
+  | None => True
+  end).
+Proof. exact (conj gen_NegativeTermSubtotals__subtotal_column (conj gen_NegativeTermSubtotals__subtotal_row (conj gen_NegativeTermSubtotals__intersection (conj gen_NegativeTermSubtotals__subtotal_columns (conj gen_NegativeTermSubtotals__subtotal_rows (conj gen_NegativeTermSubtotals__intersections (conj gen_NegativeTermSubtotals__blocks_00 (conj gen_NegativeTermSubtotals__blocks_01 (conj gen_NegativeTermSubtotals__blocks_10 (conj gen_NegativeTermSubtotals__blocks_11 (conj gen_NegativeTermSubtotals_blocks_00 (conj gen_NegativeTermSubtotals_blocks_01 (conj gen_NegativeTermSubtotals_blocks_10 (gen_NegativeTermSubtotals_blocks_11)))))))))))))). Qed.
+Print Assumptions C11_gen_NegativeTermSubtotals.
+
+(* stripe PositiveTermSubtotals / NegativeTermSubtotals = [vsum_idx] of the addends / subtrahends = [vstrat_std .. 1 / 2] *)
+Theorem C11_gen_stripe_TermSubtotals :
+  (match ssrc_PositiveTermSubtotals__subtotal_value with
+  | Some e => forall base n subs s,
+      sub_in n s ->
+      sagrees_scal (seval (senv_ssum base n subs s) e) (vsum_idx base (s_add s))
+  | None => True
+  end) /\
+  (match ssrc_PositiveTermSubtotals__subtotal_values with
+  | Some e => forall base n subs,
+      subs_in n subs ->
+      sagrees_vec (seval (senv_ssum base n subs nosub) e) (List.length subs) (fun k => vsum_idx base (s_add (nth k subs nosub)))
+  | None => True
+  end) /\
+  (match ssrc_PositiveTermSubtotals_subtotal_values with
+  | Some e => forall base n subs,
+      subs_in n subs ->
+      sagrees_vec (seval (senv_ssum base n subs nosub) e) (List.length subs) (vstrat_std subs 1 (vnth base))
+  | None => True
+  end) /\
+  (match ssrc_NegativeTermSubtotals__subtotal_value with
+  | Some e => forall base n subs s,
+      sub_in n s ->
+      sagrees_scal (seval (senv_ssum base n subs s) e) (vsum_idx base (s_sub s))
+  | None => True
+  end) /\
+  (match ssrc_NegativeTermSubtotals__subtotal_values with
+  | Some e => forall base n subs,
+      subs_in n subs ->
+      sagrees_vec (seval (senv_ssum base n subs nosub) e) (List.length subs) (fun k => vsum_idx base (s_sub (nth k subs nosub)))
+  | None => True
+  end) /\
+  (match ssrc_NegativeTermSubtotals_subtotal_values with
+  | Some e => forall base n subs,
+      subs_in n subs ->
+      sagrees_vec (seval (senv_ssum base n subs nosub) e) (List.length subs) (vstrat_std subs 2 (vnth base))
+  | None => True
+  end).
+Proof. exact (conj gen_stripe_PositiveTermSubtotals__subtotal_value (conj gen_stripe_PositiveTermSubtotals__subtotal_values (conj gen_stripe_PositiveTermSubtotals_subtotal_values (conj gen_stripe_NegativeTermSubtotals__subtotal_value (conj gen_stripe_NegativeTermSubtotals__subtotal_values (gen_stripe_NegativeTermSubtotals_subtotal_values)))))). Qed.
+Print Assumptions C11_gen_stripe_TermSubtotals.
+
+(* non-vacuity: counts [[1 2 3]], one column difference (0 + 2) - 1: the positive terms are 4,
+   the negative terms 2 *)
+Example C11_gen_sub_example :
+  match src_PositiveTermSubtotals_blocks_01, src_NegativeTermSubtotals_blocks_01 with
+  | Some p, Some n =>
+      let E := senv_sum [[Fin 1%Q; Fin 2%Q; Fin 3%Q]] 1 3 false false [] [mkSub [0; 2] [1]] nosub nosub in
+      match seval E p, seval E n with
+      | SVM _ _ f, SVM _ _ g => f 0 0 =x= Fin 4%Q /\ g 0 0 =x= Fin 2%Q
+      | _, _ => False
+      end
+  | _, _ => True
+  end.
+Proof. vm_compute. first [exact I | split; reflexivity]. Qed.
+
+End GenAgreeSubtotals_C11.
